@@ -1,0 +1,216 @@
+//go:build verif
+
+package num
+
+// Contracts for the goblvc verifier (see /verif/DESIGN.md). Comments only:
+// with the build tag off this file is not compiled, with it on it adds no code.
+//
+// Amount{value, exp} denotes value / 10^exp. Every `ensures` below is the
+// statement of property C05 instantiated for the operation (result = exact
+// rational result rounded half away from zero to the documented precision);
+// `requires`/`domain` are the property's magnitude proviso (2^52 units of the
+// working precision) per operation.
+//
+//@ spec up(a Amount, e int) int = a.value * pow10(e - a.exp)
+//@ spec emax(a Amount, b Amount) int = ite(a.exp >= b.exp, a.exp, b.exp)
+//@ spec rescaleS(a Amount, e int) Amount = ite(a.exp <= e, Amount(a.value * pow10(e - a.exp), e), Amount(rha(a.value, pow10(a.exp - e)), e))
+//@ spec rescaleDom(a Amount, e int) bool = a.exp <= 18 && e <= 18 && (a.exp > e ==> inDom(a.value)) && (a.exp < e ==> fits64(a.value * pow10(e - a.exp)))
+//@ spec neg(a Amount) Amount = Amount(0 - a.value, a.exp)
+//
+//@ global factor1 == Amount(1, 0) && factor100 == Amount(100, 0)
+//
+//@ func MakeAmount(val, exp) (r)
+//@   ensures r.value == val && r.exp == exp
+//
+//@ func intPow(base, exp) (r)
+//@   requires base == 10 && exp <= 18
+//@   ensures r == pow10(exp)
+//@   loop 1 invariant exp <= old(exp) && out == pow10(old(exp) - exp)
+//@   loop 1 decreases exp
+//
+//@ func (a Amount) Rescale(exp) (r)
+//@   domain rescaleDom(a, exp)
+//@   split a.exp - exp in 1..18
+//@   ensures r.exp == exp
+//@   ensures [raise] a.exp <= exp ==> r.value == a.value * pow10(exp - a.exp)
+//@   ensures [round] a.exp > exp ==> r.value == rha(a.value, pow10(a.exp - exp))
+//@   ensures r == rescaleS(a, exp)
+//
+//@ func (a Amount) RescaleUp(exp) (r)
+//@   domain rescaleDom(a, exp)
+//@   ensures exp > a.exp ==> r == rescaleS(a, exp)
+//@   ensures exp <= a.exp ==> r == a
+//
+//@ func (a Amount) RescaleDown(exp) (r)
+//@   domain rescaleDom(a, exp)
+//@   ensures exp < a.exp ==> r == rescaleS(a, exp)
+//@   ensures exp >= a.exp ==> r == a
+//
+//@ func (a Amount) RescaleRange(minimum, maximum) (r)
+//@   domain a.exp <= 18 && minimum <= 18 && maximum <= 18
+//@   domain rescaleDom(a, minimum)
+//@   domain rescaleDom(ite(minimum > a.exp, rescaleS(a, minimum), a), maximum)
+//@   let x = ite(minimum > a.exp, rescaleS(a, minimum), a)
+//@   ensures r == ite(maximum < x.exp, rescaleS(x, maximum), x)
+//
+//@ func (a Amount) MatchPrecision(a2) (r)
+//@   domain rescaleDom(a, a2.exp)
+//@   ensures a2.exp > a.exp ==> r == rescaleS(a, a2.exp)
+//@   ensures a2.exp <= a.exp ==> r == a
+//
+//@ func (a Amount) Upscale(increase) (r)
+//@   domain a.exp + increase <= 18 && rescaleDom(a, a.exp + increase)
+//@   ensures r == rescaleS(a, a.exp + increase)
+//
+//@ func (a Amount) Downscale(decrease) (r)
+//@   domain rescaleDom(a, ite(decrease > a.exp, 0, a.exp - decrease))
+//@   ensures r == rescaleS(a, ite(decrease > a.exp, 0, a.exp - decrease))
+//
+//@ func rescaleAmountPair(a, a2) (x, y)
+//@   domain rescaleDom(a, emax(a, a2)) && rescaleDom(a2, emax(a, a2))
+//@   ensures x == rescaleS(a, emax(a, a2)) && y == rescaleS(a2, emax(a, a2))
+//
+//@ func (a Amount) Add(a2) (r)
+//@   domain rescaleDom(a2, a.exp) && fits64(a.value + rescaleS(a2, a.exp).value)
+//@   ensures r.exp == a.exp && r.value == a.value + rescaleS(a2, a.exp).value
+//@   ensures [exact] a2.exp <= a.exp ==> r.value == a.value + a2.value * pow10(a.exp - a2.exp)
+//
+//@ func (a Amount) Subtract(a2) (r)
+//@   domain rescaleDom(a2, a.exp) && fits64(a.value - rescaleS(a2, a.exp).value)
+//@   ensures r.exp == a.exp && r.value == a.value - rescaleS(a2, a.exp).value
+//@   ensures [exact] a2.exp <= a.exp ==> r.value == a.value - a2.value * pow10(a.exp - a2.exp)
+//
+//@ func (a Amount) Multiply(a2) (r)
+//@   domain a2.exp <= 18 && inDom(a.value) && inDom(a2.value) && inDom(a.value * a2.value)
+//@   split a2.exp in 0..18
+//@   abstract a.value * a2.value
+//@   ensures r.exp == a.exp && r.value == rha(a.value * a2.value, pow10(a2.exp))
+//
+//@ func (a Amount) Divide(a2) (r)
+//@   requires a2.value != 0
+//@   domain a2.exp <= 18 && inDom(a.value * pow10(a2.exp)) && inDom(a2.value)
+//@   abstract a.value * pow10(a2.exp)
+//@   ensures r.exp == a.exp && near(a.value * pow10(a2.exp), a2.value, r.value)
+//
+//@ func (a Amount) Split(x) (q, rem)
+//@   requires x >= 1
+//@   domain a.exp <= 18 && inDom(a.value) && inDom(x) && (forall t int :: near(a.value, x, t) ==> inDom(t * (x - 1)) && fits64(a.value - t * (x - 1)))
+//@   ensures q.exp == a.exp && near(a.value, x, q.value)
+//@   ensures [addsback] rem.exp == a.exp && q.value * (x - 1) + rem.value == a.value
+//
+//@ func (a Amount) Compare(a2) (r)
+//@   domain rescaleDom(a, emax(a, a2)) && rescaleDom(a2, emax(a, a2))
+//@   ensures (r == 0 - 1 <==> up(a, emax(a, a2)) < up(a2, emax(a, a2)))
+//@   ensures (r == 0 <==> up(a, emax(a, a2)) == up(a2, emax(a, a2)))
+//@   ensures (r == 1 <==> up(a, emax(a, a2)) > up(a2, emax(a, a2)))
+//
+//@ func (a Amount) Equals(a2) (r)
+//@   domain rescaleDom(a, emax(a, a2)) && rescaleDom(a2, emax(a, a2))
+//@   ensures r <==> up(a, emax(a, a2)) == up(a2, emax(a, a2))
+//
+//@ func (a Amount) Remove(percent) (r)
+//@   requires percent.amount.value + pow10(percent.amount.exp) != 0
+//@   domain percent.amount.exp <= 18 && fits64(percent.amount.value + pow10(percent.amount.exp))
+//@   domain inDom(a.value * pow10(percent.amount.exp)) && inDom(percent.amount.value + pow10(percent.amount.exp))
+//@   ensures r.exp == a.exp && near(a.value * pow10(percent.amount.exp), percent.amount.value + pow10(percent.amount.exp), r.value)
+//
+//@ func (a Amount) Exp() (r)
+//@   ensures r == a.exp
+//@ func (a Amount) Value() (r)
+//@   ensures r == a.value
+//
+//@ func (a Amount) Negate() (r)
+//@   domain a.value != 0 - 9223372036854775808
+//@   ensures r == neg(a)
+//@ func (a Amount) Invert() (r)
+//@   domain a.value != 0 - 9223372036854775808
+//@   ensures r == neg(a)
+//@ func (a Amount) Abs() (r)
+//@   domain a.value != 0 - 9223372036854775808
+//@   ensures r.exp == a.exp && r.value == abs(a.value)
+//@ func (a Amount) IsZero() (r)
+//@   ensures r <==> a.value == 0
+//@ func (a Amount) IsNegative() (r)
+//@   ensures r <==> a.value < 0
+//@ func (a Amount) IsPositive() (r)
+//@   ensures r <==> a.value > 0
+//
+// ---- percentages: Percentage{amount} denotes amount as a factor (0.16 = 16%)
+//
+//@ func MakePercentage(value, exp) (r)
+//@   ensures r.amount.value == value && r.amount.exp == exp
+//
+//@ func PercentageFromAmount(a) (r)
+//@   domain a.exp <= 16 && inDom(a.value * 100)
+//@   ensures r.amount.exp == a.exp + 2 && r.amount.value == a.value
+//
+//@ func (p Percentage) Value() (r)
+//@   ensures r == p.amount.value
+//@ func (p Percentage) Exp() (r)
+//@   ensures r == p.amount.exp
+//@ func (p Percentage) Base() (r)
+//@   ensures r == p.amount
+//
+//@ func (p Percentage) Amount() (r)
+//@   domain p.amount.exp <= 18 && inDom(p.amount.value * 100)
+//@   ensures p.amount.exp >= 2 ==> r.exp == p.amount.exp - 2 && r.value == p.amount.value
+//@   ensures p.amount.exp < 2 ==> r.exp == 0 && r.value == p.amount.value * pow10(2 - p.amount.exp)
+//
+//@ func (p Percentage) Rescale(exp) (r)
+//@   domain rescaleDom(p.amount, exp)
+//@   ensures r.amount == rescaleS(p.amount, exp)
+//
+//@ func (p Percentage) Of(a) (r)
+//@   domain p.amount.exp <= 18 && inDom(a.value) && inDom(p.amount.value) && inDom(a.value * p.amount.value)
+//@   ensures r.exp == a.exp && r.value == rha(a.value * p.amount.value, pow10(p.amount.exp))
+//
+//@ func (p Percentage) Factor() (r)
+//@   domain p.amount.exp <= 18 && fits64(p.amount.value + pow10(p.amount.exp))
+//@   ensures r.exp == p.amount.exp && r.value == p.amount.value + pow10(p.amount.exp)
+//
+//@ func (p Percentage) From(a) (r)
+//@   requires p.amount.value + pow10(p.amount.exp) != 0
+//@   domain p.amount.exp <= 18 && fits64(p.amount.value + pow10(p.amount.exp))
+//@   domain a.exp <= 18 && inDom(a.value * pow10(p.amount.exp)) && inDom(p.amount.value + pow10(p.amount.exp)) && inDom(a.value)
+//@   ensures r.exp == a.exp && (exists t int :: near(a.value * pow10(p.amount.exp), p.amount.value + pow10(p.amount.exp), t) && r.value == a.value - t)
+//
+//@ func (p Percentage) Equals(p2) (r)
+//@   domain rescaleDom(p.amount, emax(p.amount, p2.amount)) && rescaleDom(p2.amount, emax(p.amount, p2.amount))
+//@   ensures r <==> up(p.amount, emax(p.amount, p2.amount)) == up(p2.amount, emax(p.amount, p2.amount))
+//
+//@ func (p Percentage) Compare(p2) (r)
+//@   domain rescaleDom(p.amount, emax(p.amount, p2.amount)) && rescaleDom(p2.amount, emax(p.amount, p2.amount))
+//@   ensures (r == 0 - 1 <==> up(p.amount, emax(p.amount, p2.amount)) < up(p2.amount, emax(p.amount, p2.amount)))
+//@   ensures (r == 0 <==> up(p.amount, emax(p.amount, p2.amount)) == up(p2.amount, emax(p.amount, p2.amount)))
+//@   ensures (r == 1 <==> up(p.amount, emax(p.amount, p2.amount)) > up(p2.amount, emax(p.amount, p2.amount)))
+//
+//@ func (p Percentage) IsZero() (r)
+//@   ensures r <==> p.amount.value == 0
+//@ func (p Percentage) IsPositive() (r)
+//@   ensures r <==> p.amount.value > 0
+//@ func (p Percentage) IsNegative() (r)
+//@   ensures r <==> p.amount.value < 0
+//@ func (p Percentage) Negate() (r)
+//@   domain p.amount.value != 0 - 9223372036854775808
+//@   ensures r.amount == neg(p.amount)
+//@ func (p Percentage) Invert() (r)
+//@   domain p.amount.value != 0 - 9223372036854775808
+//@   ensures r.amount == neg(p.amount)
+//
+// ---- threshold rules (operator codes: 0 >, 1 >=, 2 <, 3 <=, 4 != 0)
+//
+//@ func (r ThresholdRule) compare(value) (ok)
+//@   domain rescaleDom(value, emax(value, r.threshold)) && rescaleDom(r.threshold, emax(value, r.threshold))
+//@   let v = up(value, emax(value, r.threshold))
+//@   let t = up(r.threshold, emax(value, r.threshold))
+//@   ensures r.operator == 0 ==> (ok <==> v > t)
+//@   ensures r.operator == 1 ==> (ok <==> v >= t)
+//@   ensures r.operator == 2 ==> (ok <==> v < t)
+//@   ensures r.operator == 3 ==> (ok <==> v <= t)
+//@   ensures r.operator == 4 ==> (ok <==> v != t)
+//
+//@ func (r ThresholdRule) Exclusive() (x)
+//@   ensures x.threshold == r.threshold
+//@   ensures r.operator == 1 ==> x.operator == 0
+//@   ensures r.operator == 3 ==> x.operator == 2
+//@   ensures r.operator != 1 && r.operator != 3 ==> x.operator == r.operator
